@@ -71,7 +71,9 @@ def jobs(tier: str):
             "1 <= #sum { 1,V : v(V,Y) }", "r(Y,K)"]
 
     def bodies():
-        yield from subsets(MENU, kmin, kmax)
+        yield from subsets(MENU, kmin, 3)
+        if kmax >= 4:
+            yield from subsets(MENU[:16], 4, 4)
         if kmax < 4:
             yield from subsets(core, 4, 4)
         yield from (c + ("u(W) : v(Z,V)",) for c in subsets(MENU[:6], 3, 3))
